@@ -41,6 +41,11 @@ func safeExecute(f *bexpr.Filter, d interface{}) (out interface{}, err error, pa
 // c17Check returns (#kept, #dropped, #errored elements).
 func c17Check(t failer, c *c17Case) (int, int, int) {
 	text := string(c.Text)
+	// another filter is created first whose expression differs from this one only in the blanks INSIDE its
+	// literals: filters of different expressions are unrelated, whatever was created before
+	if decoy := blankVariant(text); decoy != text {
+		bexpr.CreateFilter(decoy)
+	}
 	f, ferr := bexpr.CreateFilter(text)
 	ev, eerr := bexpr.CreateEvaluator(text)
 	if ferr != nil || eerr != nil {
@@ -301,4 +306,23 @@ func TestC17_Filter(t *testing.T) {
 			fmt.Sprintf("mixed:%v", kept > 0 && dropped > 0), fmt.Sprintf("errors:%v", errored > 0))
 		_ = ref.T
 	})
+}
+
+// blankVariant doubles every blank run inside quoted / backtick literals (and leaves the rest alone).
+func blankVariant(text string) string {
+	var sb []byte
+	var quote byte
+	for i := 0; i < len(text); i++ {
+		ch := text[i]
+		sb = append(sb, ch)
+		switch {
+		case quote == 0 && (ch == '"' || ch == '`'):
+			quote = ch
+		case quote != 0 && ch == quote:
+			quote = 0
+		case quote != 0 && (ch == ' ' || ch == '\t'):
+			sb = append(sb, ch)
+		}
+	}
+	return string(sb)
 }
